@@ -876,17 +876,31 @@ func checkAuthor(c *Ctx, fn *ssa.Function) {
 			if !ok {
 				continue
 			}
-			cmp, ok := iff.Cond.(*ssa.BinOp)
-			if !ok || cmp.Op != token.LSS || cmp.Y != ssa.Value(feeCall) {
+			// the edge on which "remainder < required fee" holds, however the test is spelled (`rem < fee` with the retry
+			// in the then-branch, or `rem >= fee` with the success path there)
+			want := restL.add(p.linearize(feeCall, 0), -1)
+			retryEdge := -1
+			for si := range b.Succs {
+				if cf, ok := p.cmpForm(iff.Cond, si == 0); ok && cf.Rel == "<" && cf.L.String() == want.String() {
+					retryEdge = si
+				}
+			}
+			if retryEdge < 0 {
 				continue
 			}
-			if p.linearize(cmp.X, 0).String() != restL.String() {
+			mentionsFee := false
+			for _, o := range (&Slicer{P: p, ThroughBinOp: true}).Origins(iff.Cond) {
+				if o == ssa.Value(feeCall) {
+					mentionsFee = true
+				}
+			}
+			if !mentionsFee {
 				continue
 			}
 			okRetry = true
 			// the value the fee target takes for the next pass
 			retarget := []ssa.Value{feeCall}
-			succs := map[*ssa.BasicBlock]bool{b.Succs[0]: true, b: true}
+			succs := map[*ssa.BasicBlock]bool{b.Succs[retryEdge]: true, b: true}
 			if site != nil {
 				// one pass is a private part: on the retry edge it hands the required fee back as a result, and the
 				// driver loop takes that result as the next target
@@ -894,7 +908,7 @@ func checkAuthor(c *Ctx, fn *ssa.Function) {
 				succs = nil
 				for _, bb := range body.Blocks {
 					r, ok := bb.Instrs[len(bb.Instrs)-1].(*ssa.Return)
-					if !ok || !(bb == b.Succs[0] || b.Succs[0].Dominates(bb)) {
+					if !ok || !(bb == b.Succs[retryEdge] || b.Succs[retryEdge].Dominates(bb)) {
 						continue
 					}
 					for k, rv := range r.Results {
